@@ -6,6 +6,8 @@
  *          combining class, STABLY (UAX #15 D108/D109) - for all x of N code points and all ccc tables;
  *  MODE 1  would_compose(x) <=> compose(x) changes x (the quick check never disagrees with the composition step),
  *          and compose never lengthens;  incl. Hangul L+V, LV+T arithmetic;
+ *  MODE 3  (tables: concrete all-zero, only the code points symbolic) Hangul arithmetic of UAX #15 (3.12): x[0] a leading consonant or a precomposed syllable, x[1] a vowel or
+ *          trailing consonant: L+V -> LV, LV+T -> LVT, everything else unchanged; would_compose agrees;
  *  MODE 2  is_already_nfc(x) <=> no singleton decomposition /\ sort_marks(x) == x /\ !would_compose(x). */
 #include <string.h>
 #ifndef N
@@ -32,6 +34,13 @@ void harness(void) {
   INPUTS(I);
   VK_INIT_ALL();
   for (unsigned i = 0; i < 8; i++) ASSUME(I.x[i] < NIDX * 256 && I.x[i] < 0xD800);
+#if MODE == 3
+  /* Hangul arithmetic does not consult the tables for the code points involved: all tables are concrete zeros (every
+     code point a starter without compositions), only the code points are symbolic */
+  for (unsigned i = 0; i < 8; i++) T_x[i] = I.x[i];
+  TABPTR(9ccc_indexE) = T_ccc_index; TABPTR(14ccc_block_flatE) = T_ccc_block;
+  TABPTR(17composition_indexE) = T_comp_index; TABPTR(22composition_block_flatE) = (uint8_t*)T_comp_block; TABPTR(16composition_dataE) = (uint8_t*)T_comp_data;
+#else
   for (unsigned k = 0; k < NIDX; k++) { ASSUME(I.ccc_index[k] < 2); ASSUME(I.comp_index[k] < 2); ASSUME(I.decomp_index[k] < 2); }
 #if MODE != 0
   for (unsigned k = 0; k < 514; k++) ASSUME(I.comp_block[k] <= 11);
@@ -54,6 +63,7 @@ void harness(void) {
   TABPTR(19decomposition_indexE) = T_decomp_index; TABPTR(24decomposition_block_flatE) = (uint8_t*)T_decomp_block;
   TABPTR(17tables_init_stateE) = 2;
 #endif
+#endif /* MODE != 3 */
   const uint32_t* x = I.x;               /* the original code points; the kernels work in place on T_x */
   uint8_t* in = (uint8_t*)T_x; uint8_t out[32] = {0};
 #if MODE == 0
@@ -76,6 +86,31 @@ void harness(void) {
   }
   for (unsigned p = 0; p < N; p++) CHECK(T_x[p] == ref[p], "sort_marks = stable sort of every run of non-starters by combining class (canonical ordering)");
   if (N >= 2 && ccc_of(x[0]) != 0 && ccc_of(x[0]) == ccc_of(x[1]) && x[0] != x[1]) REACH("two different marks of the same class");
+#elif MODE == 3
+  {
+    const uint32_t a0 = x[0], a1 = x[1];
+    ASSUME((a0 >= 0x1100 && a0 < 0x1113) || (a0 >= 0xAC00 && a0 < 0xAC00 + 11172));
+    ASSUME(a1 >= 0x1161 && a1 < 0x11C3);
+    for (unsigned p = 0; p < N; p++) ASSUME(ccc_of(x[p]) == 0);        /* Hangul jamo and syllables are starters */
+#if N >= 3
+    ASSUME(x[2] < 0x1100);
+#endif
+    uint32_t want0 = a0; int merged = 0;
+    if (a0 < 0x1113 && a1 < 0x1176) { want0 = 0xAC00 + ((a0 - 0x1100) * 21 + (a1 - 0x1161)) * 28; merged = 1; }
+    else if (a0 >= 0xAC00 && (a0 - 0xAC00) % 28 == 0 && a1 > 0x11A7) { want0 = a0 + (a1 - 0x11A7); merged = 1; }
+    uint64_t r = F_vk_nfc_kernel(in, 32, out, 32, N, 3);
+    const uint64_t len = r & 0xffffffffu; const int would = (int)(r >> 32);
+#if N == 2
+    CHECK(len == (merged ? 1u : 2u), "Hangul: L+V and LV+T compose, nothing else does (length)");
+    CHECK(T_x[0] == want0, "Hangul: composed syllable per UAX #15 arithmetic");
+    if (!merged) CHECK(T_x[1] == a1, "Hangul: second code point kept");
+    CHECK(would == merged, "Hangul: would_compose agrees");
+#else
+    if (!merged) CHECK(T_x[0] == a0, "Hangul: first code point kept when nothing composes");
+    else CHECK(would, "Hangul: would_compose sees the composition");
+#endif
+    if (merged && a0 >= 0xAC00) REACH("LV + T composes");
+  }
 #elif MODE == 1
   uint64_t r = F_vk_nfc_kernel(in, 32, out, 32, N, 3);
   const uint64_t len = r & 0xffffffffu; const int would = (int)(r >> 32);
